@@ -63,7 +63,8 @@ NoHandles == [i \in 1..NHND |-> NONE]
 NewTaskL(cmd, code, regs, handles, noEvict, legacy) ==
   [cmd |-> cmd, code |-> code, pc |-> 1, regs |-> regs, st |-> "live", seq |-> 0, en |-> 0,
    streams |-> NoStreams, handles |-> handles, hosting |-> NONE, aborted |-> FALSE,
-   ls |-> <<>>, yielded |-> FALSE, noEvict |-> noEvict, hostedNow |-> FALSE, why |-> "", legacy |-> legacy]
+   ls |-> <<>>, yielded |-> FALSE, noEvict |-> noEvict, hostedNow |-> FALSE, why |-> "", legacy |-> legacy,
+   script |-> FALSE]     \* script: the future is an interpreted script of the harness (it carries a drop token)
 
 NewTask(cmd, code, regs, handles, noEvict) == NewTaskL(cmd, code, regs, handles, noEvict, FALSE)
 
@@ -138,7 +139,8 @@ Instantiate(c, inst, host) ==
        [] c.k = "then"   -> one(<< HostI(c.a, "id", "id"), HostI(c.b, "id", "id") >>)
        [] c.k = "map_effect" -> one(<< HostI(c.c, c.f, "id") >>)
        [] c.k = "map_event"  -> one(<< HostI(c.c, "id", c.f) >>)
-       [] c.k = "async"  -> one(c.code)
+       [] c.k = "async"  -> LET r == one(c.code) IN
+                            [r EXCEPT !.tasks = [k \in DOMAIN r.tasks |-> [r.tasks[k] EXCEPT !.script = TRUE]]]
        [] c.k = "all"    ->
             [cmds  |-> (ck :> NewCmd(host)),
              tasks |-> (<<inst, c.tid>> :> NewTask(ck, <<>>, ZeroRegs, NoHandles, FALSE))
@@ -404,7 +406,8 @@ ExecInstr(S, t) ==
     [] I.op = "spawn" ->
          LET k == <<t[1], I.script.tid>>
              S1 == [S EXCEPT !.tasks = [@ EXCEPT ![t].handles[I.h] = k]
-                                   @@ (k :> NewTaskL(T.cmd, I.script.code, T.regs, T.handles, T.noEvict, T.legacy)),
+                                   @@ (k :> [NewTaskL(T.cmd, I.script.code, T.regs, T.handles, T.noEvict, T.legacy)
+                                               EXCEPT !.script = TRUE]),
                              !.ready = @ \cup {k}] IN
          adv(IF Fifo THEN [S1 EXCEPT !.sq[T.cmd] = Append(@, k)] ELSE S1)
     [] I.op = "abort" ->
@@ -703,5 +706,21 @@ Take(c) ==
   /\ UNCHANGED <<tasks, ready, run, joinreg, rq, sq>>
 
 IsDone(c) == cmds[c].out = {} /\ LiveIn(St, c) = {}
+
+\* C13: the script futures that may still exist (everything else must have been dropped): the
+\* live script tasks, and the scripts of commands a combinator already holds but has not started
+RECURSIVE AsyncTids(_)
+AsyncTids(c) ==
+  CASE c.k = "async" -> {c.tid}
+    [] c.k \in {"then", "and"} -> AsyncTids(c.a) \cup AsyncTids(c.b)
+    [] c.k = "all" -> UNION {AsyncTids(c.cs[i].c) : i \in DOMAIN c.cs}
+    [] c.k \in {"map_effect", "map_event"} -> AsyncTids(c.c)
+    [] OTHER -> {}
+PendingScripts ==
+  UNION {LET T == tasks[t] IN
+         UNION {{<<t[1], x>> : x \in AsyncTids(T.code[i].cmd)} :
+                  i \in {j \in DOMAIN T.code : T.code[j].op = "host" /\ (j > T.pc \/ (j = T.pc /\ T.hosting = NONE))}}
+         : t \in {u \in DOMAIN tasks : tasks[u].st = "live"}}
+ScriptTasksAlive == {t \in DOMAIN tasks : tasks[t].st = "live" /\ tasks[t].script} \cup PendingScripts
 
 =============================================================================
